@@ -120,7 +120,9 @@ def decorate(scs, *, seed, calls_choices=(("invoke",), ("stream",), ("invoke", "
             if rnd.random() < 0.3:
                 sc["smod"] = 1 + rnd.randrange(2)
             for inner in (sc.get("sub") or {}).values():
-                if rnd.random() < 0.6:
+                if rnd.random() < 0.35:
+                    inner["pstate"] = True      # stateless inner graph whose nodes work on the parent's state
+                elif rnd.random() < 0.6:
                     inner["state"] = True
                     inner["post"] = rnd.random() < 0.5
                     inner["hmod"] = rnd.random() < 0.5
